@@ -258,3 +258,258 @@ func (sdt *SDT) FinalizeTOCSDT() {
 	}
 	sdt.Content.Elements = append(sdt.Content.Elements, bookmarkEnd)
 }
+
+// maxSDTNesting 打开文档时允许的内容控件最大嵌套层数
+const maxSDTNesting = 64
+
+// parseSDT 解析块级内容控件 <w:sdt>
+func (d *Document) parseSDT(decoder *xml.Decoder, depth int) (*SDT, error) {
+	if depth > maxSDTNesting {
+		return nil, WrapError("parse_sdt", fmt.Errorf("content controls nested deeper than %d levels", maxSDTNesting))
+	}
+
+	sdt := &SDT{}
+
+	for {
+		token, err := decoder.Token()
+		if err != nil {
+			return nil, WrapError("parse_sdt", err)
+		}
+
+		switch t := token.(type) {
+		case xml.StartElement:
+			switch t.Name.Local {
+			case "sdtPr":
+				props, err := d.parseSDTProperties(decoder)
+				if err != nil {
+					return nil, err
+				}
+				sdt.Properties = props
+			case "sdtEndPr":
+				endPr, err := d.parseSDTEndProperties(decoder)
+				if err != nil {
+					return nil, err
+				}
+				sdt.EndPr = endPr
+			case "sdtContent":
+				content, err := d.parseSDTContent(decoder, depth)
+				if err != nil {
+					return nil, err
+				}
+				sdt.Content = content
+			default:
+				if err := d.skipElement(decoder, t.Name.Local); err != nil {
+					return nil, err
+				}
+			}
+		case xml.EndElement:
+			if t.Name.Local == "sdt" {
+				return sdt, nil
+			}
+		}
+	}
+}
+
+// parseSDTProperties 解析 <w:sdtPr>
+func (d *Document) parseSDTProperties(decoder *xml.Decoder) (*SDTProperties, error) {
+	props := &SDTProperties{}
+
+	for {
+		token, err := decoder.Token()
+		if err != nil {
+			return nil, WrapError("parse_sdt_properties", err)
+		}
+
+		switch t := token.(type) {
+		case xml.StartElement:
+			switch t.Name.Local {
+			case "rPr":
+				holder := &Run{}
+				if err := d.parseRunProperties(decoder, holder); err != nil {
+					return nil, err
+				}
+				props.RunPr = holder.Properties
+			case "id":
+				props.ID = &SDTID{Val: getAttributeValue(t.Attr, "val")}
+				if err := d.skipElement(decoder, t.Name.Local); err != nil {
+					return nil, err
+				}
+			case "color":
+				props.Color = &SDTColor{Val: getAttributeValue(t.Attr, "val")}
+				if err := d.skipElement(decoder, t.Name.Local); err != nil {
+					return nil, err
+				}
+			case "docPartObj":
+				docPartObj, err := d.parseDocPartObj(decoder)
+				if err != nil {
+					return nil, err
+				}
+				props.DocPartObj = docPartObj
+			case "placeholder":
+				placeholder, err := d.parseSDTPlaceholder(decoder)
+				if err != nil {
+					return nil, err
+				}
+				props.Placeholder = placeholder
+			default:
+				if err := d.skipElement(decoder, t.Name.Local); err != nil {
+					return nil, err
+				}
+			}
+		case xml.EndElement:
+			if t.Name.Local == "sdtPr" {
+				return props, nil
+			}
+		}
+	}
+}
+
+// parseDocPartObj 解析 <w:docPartObj>
+func (d *Document) parseDocPartObj(decoder *xml.Decoder) (*DocPartObj, error) {
+	docPartObj := &DocPartObj{}
+
+	for {
+		token, err := decoder.Token()
+		if err != nil {
+			return nil, WrapError("parse_doc_part_obj", err)
+		}
+
+		switch t := token.(type) {
+		case xml.StartElement:
+			switch t.Name.Local {
+			case "docPartGallery":
+				docPartObj.DocPartGallery = &DocPartGallery{Val: getAttributeValue(t.Attr, "val")}
+			case "docPartUnique":
+				docPartObj.DocPartUnique = &DocPartUnique{}
+			}
+			if err := d.skipElement(decoder, t.Name.Local); err != nil {
+				return nil, err
+			}
+		case xml.EndElement:
+			if t.Name.Local == "docPartObj" {
+				return docPartObj, nil
+			}
+		}
+	}
+}
+
+// parseSDTPlaceholder 解析 <w:placeholder>
+func (d *Document) parseSDTPlaceholder(decoder *xml.Decoder) (*SDTPlaceholder, error) {
+	placeholder := &SDTPlaceholder{}
+
+	for {
+		token, err := decoder.Token()
+		if err != nil {
+			return nil, WrapError("parse_sdt_placeholder", err)
+		}
+
+		switch t := token.(type) {
+		case xml.StartElement:
+			if t.Name.Local == "docPart" {
+				placeholder.DocPart = &DocPart{Val: getAttributeValue(t.Attr, "val")}
+			}
+			if err := d.skipElement(decoder, t.Name.Local); err != nil {
+				return nil, err
+			}
+		case xml.EndElement:
+			if t.Name.Local == "placeholder" {
+				return placeholder, nil
+			}
+		}
+	}
+}
+
+// parseSDTEndProperties 解析 <w:sdtEndPr>
+func (d *Document) parseSDTEndProperties(decoder *xml.Decoder) (*SDTEndPr, error) {
+	endPr := &SDTEndPr{}
+
+	for {
+		token, err := decoder.Token()
+		if err != nil {
+			return nil, WrapError("parse_sdt_end_properties", err)
+		}
+
+		switch t := token.(type) {
+		case xml.StartElement:
+			if t.Name.Local == "rPr" {
+				holder := &Run{}
+				if err := d.parseRunProperties(decoder, holder); err != nil {
+					return nil, err
+				}
+				endPr.RunPr = holder.Properties
+			} else if err := d.skipElement(decoder, t.Name.Local); err != nil {
+				return nil, err
+			}
+		case xml.EndElement:
+			if t.Name.Local == "sdtEndPr" {
+				return endPr, nil
+			}
+		}
+	}
+}
+
+// parseSDTContent 解析 <w:sdtContent> 中的块级元素
+func (d *Document) parseSDTContent(decoder *xml.Decoder, depth int) (*SDTContent, error) {
+	content := &SDTContent{Elements: []interface{}{}}
+
+	for {
+		token, err := decoder.Token()
+		if err != nil {
+			return nil, WrapError("parse_sdt_content", err)
+		}
+
+		switch t := token.(type) {
+		case xml.StartElement:
+			switch t.Name.Local {
+			case "p":
+				paragraph, err := d.parseParagraph(decoder, t)
+				if err != nil {
+					return nil, err
+				}
+				content.Elements = append(content.Elements, paragraph)
+			case "tbl":
+				table, err := d.parseTable(decoder, t)
+				if err != nil {
+					return nil, err
+				}
+				content.Elements = append(content.Elements, table)
+			case "r":
+				// 目录条目的占位内容控件直接包含运行
+				run, err := d.parseRun(decoder, t)
+				if err != nil {
+					return nil, err
+				}
+				content.Elements = append(content.Elements, *run)
+			case "sdt":
+				nested, err := d.parseSDT(decoder, depth+1)
+				if err != nil {
+					return nil, err
+				}
+				content.Elements = append(content.Elements, nested)
+			case "hyperlink", "smartTag", "ins", "moveTo", "fldSimple", "customXml", "dir", "bdo":
+				// 仅作为容器：继续读取其中的运行和段落
+			case "bookmarkStart":
+				content.Elements = append(content.Elements, &BookmarkStart{
+					ID:   getAttributeValue(t.Attr, "id"),
+					Name: getAttributeValue(t.Attr, "name"),
+				})
+				if err := d.skipElement(decoder, t.Name.Local); err != nil {
+					return nil, err
+				}
+			case "bookmarkEnd":
+				content.Elements = append(content.Elements, &BookmarkEnd{ID: getAttributeValue(t.Attr, "id")})
+				if err := d.skipElement(decoder, t.Name.Local); err != nil {
+					return nil, err
+				}
+			default:
+				if err := d.skipElement(decoder, t.Name.Local); err != nil {
+					return nil, err
+				}
+			}
+		case xml.EndElement:
+			if t.Name.Local == "sdtContent" {
+				return content, nil
+			}
+		}
+	}
+}
